@@ -27,17 +27,26 @@ def db : UniDb := ⟨fun nm =>
   else none⟩
 
 /-- the registered test commands of the harness: every signature shape and every convertible parameter type -/
-def cmds (name : Str) : Option SigT :=
-  if name = asciiStr "t.s" then some ⟨[], some .str⟩
-  else if name = asciiStr "t.v" then some ⟨[], some .verbatim⟩
-  else if name = asciiStr "t.one" then some ⟨[.str], none⟩
-  else if name = asciiStr "t.two" then some ⟨[.str, .verbatim], none⟩
-  else if name = asciiStr "t.mix" then some ⟨[.verbatim], some .str⟩
-  else if name = asciiStr "t.none" then some ⟨[], none⟩
-  else if name = asciiStr "t.i" then some ⟨[], some .int⟩
-  else if name = asciiStr "t.b" then some ⟨[], some .bool⟩
-  else if name = asciiStr "t.p" then some ⟨[], some .path⟩
-  else if name = asciiStr "t.ibp" then some ⟨[.int, .bool, .path], none⟩
+def choiceOpts : List Str := [asciiStr "a", asciiStr "b c", asciiStr "", asciiStr "'q'"]
+
+def cmds (name : Str) : Option SigD :=
+  if name = asciiStr "t.s" then some ⟨[], [], some .str⟩
+  else if name = asciiStr "t.v" then some ⟨[], [], some .verbatim⟩
+  else if name = asciiStr "t.one" then some ⟨[.str], [], none⟩
+  else if name = asciiStr "t.two" then some ⟨[.str, .verbatim], [], none⟩
+  else if name = asciiStr "t.mix" then some ⟨[.verbatim], [], some .str⟩
+  else if name = asciiStr "t.none" then some ⟨[], [], none⟩
+  else if name = asciiStr "t.i" then some ⟨[], [], some .int⟩
+  else if name = asciiStr "t.b" then some ⟨[], [], some .bool⟩
+  else if name = asciiStr "t.p" then some ⟨[], [], some .path⟩
+  else if name = asciiStr "t.ibp" then some ⟨[.int, .bool, .path], [], none⟩
+  else if name = asciiStr "t.q" then some ⟨[], [], some .strSeq⟩
+  else if name = asciiStr "t.c" then some ⟨[.cutSpec], [], none⟩
+  else if name = asciiStr "t.m" then some ⟨[], [], some .marker⟩
+  else if name = asciiStr "t.ch" then some ⟨[.choice choiceOpts], [], some .str⟩
+  else if name = asciiStr "t.opts" then some ⟨[], [], none⟩
+  else if name = asciiStr "t.d" then some ⟨[.str, .str, .int], [.s (asciiStr "dflt"), .i 7], none⟩
+  else if name = asciiStr "t.dr" then some ⟨[.verbatim, .bool], [.b true], some .str⟩
   else none
 
 /-- the process environment the harness fixes: HOME=/h/me/ and the one password-database entry it relies on -/
@@ -47,13 +56,14 @@ def showTVal : TVal → String
   | .s x => encodeStr x
   | .i n => "i:" ++ toString n
   | .b x => if x then "b:1" else "b:0"
+  | .l xs => "l:" ++ ",".intercalate (xs.map encodeStr)
 
 def stepLine (line : String) : String :=
   match fields line with
   | ["exec", l] =>
     match strOf l with
     | some l =>
-      match executeT db env cmds l with
+      match executeD db env cmds l with
       | .arity => "arity"
       | .noCommand => "nocmd"
       | .unknown => "unknown"
